@@ -446,10 +446,13 @@ _HANGS = [0]
 
 def outcome(fn, limit=None):
     """run a placer; -> {"ok": placement dict} | {"err": name}.  A call that is still running after `limit`
-    seconds of CPU time (default 10 s - a call takes milliseconds; 2 s once that has happened 4 times in this
-    run) is recorded as {"err": "DidNotReturn"}"""
+    seconds of CPU time (default 10 s - a call takes milliseconds; at most 2 s once that has happened 4 times in
+    this run, 0.5 s after 12 times) is recorded as {"err": "DidNotReturn"}"""
+    lim = limit or 10
+    if _HANGS[0] >= 4:              # after a few hangs the run is kept short
+        lim = min(lim, 2 if _HANGS[0] < 12 else 0.5)
     try:
-        with common.cpu_limit(limit or (10 if _HANGS[0] < 4 else 2)):
+        with common.cpu_limit(lim):
             return {"ok": fn()}
     except common.ImplHang as e:
         _HANGS[0] += 1
@@ -979,7 +982,7 @@ from harness import c02_harden
 THEOREMS = THEOREMS + c02_orders.THEOREMS_ORDERS
 CLAIM = dict(CLAIM, text=CLAIM["text"] + " " + c02_orders.CLAIM_ORDERS + " " + c02_kernel.CLAIM_KERNEL + " " +
              c02_sessions.CLAIM_SESSIONS + " " + c02_names.CLAIM_NAMES + " " + c02_harden.CLAIM_HARDEN,
-             note=CLAIM["note"] + " " + c02_orders.NOTE_ORDERS)
+             note=CLAIM["note"] + " " + c02_orders.NOTE_ORDERS + " " + c02_harden.NOTE_HARDEN)
 
 
 def run(ctx):
@@ -997,7 +1000,7 @@ def run(ctx):
         "custom vertex orders are permutations of the vertices (documented precondition of sequential.place)",
         "completeness clause read as: one resource r0, every vertex needs 0 or 1 unit of r0 and nothing else, at least one working chip",
         "termination of the annealing temperature schedule is bounded by the harness through on_temperature_change"]
-    n = ctx.scale(1500, 40000)
+    n = ctx.scale(1500, 30000)
     if ctx.extended:
         n *= 4
     rng = ctx.rng
